@@ -4,7 +4,6 @@ import (
 	"fmt"
 
 	"verifharness/core"
-	"verifharness/enc/ev"
 	"verifharness/gen"
 	"verifharness/hist"
 	"verifharness/run"
@@ -21,68 +20,8 @@ func init() {
 		base(c)
 		if c.Replay == "" {
 			c15Rebind(c)
-			c15Signedness(c)
 		}
 	})
-}
-
-// c15Signedness: the table is altered (same name and column count, signedness
-// of integer columns flipped) and announced under a new id; the mapper answers
-// the lookup for the new id with the new definition. Rows after the second
-// announcement must be decoded with the signedness of that answer.
-func c15Signedness(c *core.Ctx) {
-	nh := c.N(40, 800)
-	for idx := 0; idx < nh; idx++ {
-		if !c.Mine(idx) {
-			continue
-		}
-		r := c.Rng(core.StrID("c15signed"), uint64(idx))
-		cb := allCombos()[idx%24]
-		o := cb.hopts(r)
-		o.MaxTables, o.MaxCols, o.MaxRows, o.MaxStmts = 1, 6, 3, 2
-		o.Types = []byte{ev.TTiny, ev.TShort, ev.TInt24, ev.TLong, ev.TLongLong}
-		b := gen.NewBuilder(r, o)
-		t1 := b.Tables[0]
-		kinds := []hist.UnitKind{hist.TxXID, hist.AutoRows, hist.TxCommit}
-		for i := 0; i < 2+r.Intn(2); i++ {
-			b.Add(kinds[r.Intn(len(kinds))])
-		}
-		t2 := *t1
-		t2.ID = t1.ID + 1 + uint64(r.Intn(50))
-		t2.Cols = append([]hist.Column(nil), t1.Cols...)
-		for i := 1; i < len(t2.Cols); i++ {
-			t2.Cols[i].Unsigned = !t2.Cols[i].Unsigned
-		}
-		b.Add(hist.DDL) // the ALTER TABLE
-		b.Tables = []*hist.Table{&t2}
-		for i := 0; i < 2+r.Intn(2); i++ {
-			b.Add(kinds[r.Intn(len(kinds))])
-		}
-		h := b.H
-		l := h.Build()
-		start := hist.Pos{File: h.FirstFile, Off: 4}
-		exp := hist.Expect(h, l, start)
-		s, err := run.NewSession(l, []*hist.Table{t1}, 1516, start, true)
-		if err != nil {
-			c.Inconclusive("cannot start master: " + err.Error())
-			return
-		}
-		for _, g := range run.LibGoroutines(nil) {
-			s.Abandon(g.ID)
-		}
-		s.Mapper.Versions = map[[2]string][]*hist.Table{{t1.DB, t1.Name}: {t1, &t2}}
-		s.M.SetDefault(&sim.Script{End: sim.EndEOF})
-		res := s.Attempt(run.NoFaults(), nil, maxWait)
-		c.Case(core.HashU64(layoutHash(l), 1516), len(t1.Cols) > 1)
-		c.Cell("stream:signedness-changes-with-new-id")
-		scn := map[string]interface{}{"mode": "signedness-new-id", "hist": idx}
-		if res.Verdict == run.Returned && res.Panic == "" {
-			if d := run.CompareAll(exp, res.Delivered, false); d != nil {
-				c.Violation("c15:signedness-of-new-announcement:"+d.Kind, fmt.Sprintf("history %d: after the table was announced under a new id (mapper now answers with flipped signedness): %s (stream error: %s)", idx, d, errStr(res.Err)), witnessOf(scn, h, s, nil))
-			}
-		}
-		s.Close()
-	}
 }
 
 func c15Rebind(c *core.Ctx) {
